@@ -19,14 +19,14 @@ FromYmdExp(y, m, d) == IF ValidDate(y, m, d) THEN <<OkDn(Ymd2Dn(y, m, d))>> ELSE
 
 FromYmdCases ==
   {[op |-> op, y |-> y, m |-> m, d |-> d, exp |-> FromYmdExp(y, m, d)] :
-      op \in {"date_from_ymd", "dt_from_ymd"}, y \in Years, m \in 0..13, d \in 0..32}
+      op \in {"c_date_from_ymd", "c_dt_from_ymd"}, y \in Years, m \in 0..13, d \in 0..32}
 
 \* base date of the year the setter is applied to: 1 July (1 August / 1 June in the two partial years)
 BaseMonth(y) == IF y = MinYmd[1] THEN 8 ELSE IF y = MaxYmd[1] THEN 6 ELSE 7
 SetDoyExp(y, n) == IF ValidYearDoy(y, n) THEN <<OkDn(YearDoy2Dn(y, n))>> ELSE <<ErrOOR>>
 SetDoyCases ==
   {[op |-> op, base |-> Ymd2Dn(y, BaseMonth(y), 1), n |-> n, exp |-> SetDoyExp(y, n)] :
-      op \in {"date_set_doy", "dt_set_doy"},
+      op \in {"c_date_set_doy", "c_dt_set_doy"},
       y \in {yy \in Years : yy # 0 /\ yy >= MinYmd[1] /\ yy <= MaxYmd[1]}, n \in 0..367}
 
 \* as_ymd / weekday / day_of_year of chosen day numbers (expected values from the closed forms)
@@ -35,7 +35,7 @@ Days == {MinDn, MinDn + 1, MaxDn, MaxDn - 1} \cup Around(0, 800) \cup Around(Uni
 ReadCases ==
   {[op |-> op, dn |-> dn,
     exp |-> <<[k |-> "ok", ymd |-> Dn2Ymd(dn), wd |-> Weekday(dn), doy |-> Doy(dn)]>>] :
-      op \in {"date_read", "dt_read"}, dn \in Days}
+      op \in {"c_date_read", "c_dt_read"}, dn \in Days}
 
 Which == IOEnv.WHICH
 Cases == IF Which = "C01" THEN FromYmdCases \cup ReadCases
